@@ -130,6 +130,7 @@ func C04(run *report.Run) {
 
 func C09(run *report.Run) {
 	runSingle(run, "C09", StructConfigs(run.Thorough(), []string{"none", "big"}, bothFormats), func(*world.Config) explore.Monitor { return &c09Mon{} }, stdOps)
+	c09FaultHistories(run)
 	run.Rule = ruleSingle + "; oracle: every persisted version, decoded by the reference codec, satisfies the shape invariants relative to the recorded height"
 }
 
@@ -217,6 +218,11 @@ func C13Configs(thorough bool) []*world.Config {
 
 func C16(run *report.Run) {
 	runSingle(run, "C16", C16Configs(run.Thorough()), func(*world.Config) explore.Monitor { return &c16Mon{} }, stdOps)
+	if run.Thorough() {
+		acc := &pairAcc{}
+		bigC16(run, acc)
+		acc.flush(run)
+	}
 	run.Rule = ruleSingle + " on a cache-less recording store; oracle: Persist.Load calls per API call: LoadMast<=1, Clone<=1, Get<=height+1 (every key and absent probe, in every state), Insert/Delete<=2(height+1) when the height did not change"
 }
 
